@@ -20,6 +20,9 @@ def get_prop(pid):
     if pid == "C10":
         import p_mask
         return p_mask.MaskProp()
+    if pid == "C15":
+        import p_adapters
+        return p_adapters.AdapterProp()
     raise SystemExit(f"unknown property {pid}")
 
 
